@@ -18,6 +18,23 @@ NEGATIVE_ONE = Expression(INTEGER, [-1])
 ZERO = Expression(INTEGER, [0])
 ONE = Expression(INTEGER, [1])
 
+# integers are stored in the (int64) command array of an AGraph
+_MIN_INTEGER, _MAX_INTEGER = -2**63, 2**63 - 1
+
+
+def _fits_in_command_array(integer):
+    return _MIN_INTEGER <= integer <= _MAX_INTEGER
+
+
+def _integer_power(base, exponent):
+    # exact base**exponent, or None if it cannot be stored as an integer
+    if abs(base) > 1 and exponent > 63:
+        return None
+    power = base ** exponent
+    if _fits_in_command_array(power):
+        return power
+    return None
+
 
 def automatic_simplify(expression):
     """A recursive simplification of an expression
@@ -68,7 +85,11 @@ def _simplify_constant_power(base, exponent):
 
     if base.operator == INTEGER and exponent.operator == INTEGER \
             and exponent.operands[0] > 0:
-        return Expression(INTEGER, [base.operands[0]**exponent.operands[0]])
+        power = _integer_power(int(base.operands[0]),
+                               int(exponent.operands[0]))
+        if power is None:
+            return Expression(POWER, [base, exponent])
+        return Expression(INTEGER, [power])
 
     if base.operator == POWER:  # multiply constant powers
         base_base = base.operands[0]
@@ -108,7 +129,11 @@ def _simplify_product_rec(operands):
     if len(operands) == 2:
         op_1, op_2 = operands
         if op_1.operator == INTEGER and op_2.operator == INTEGER:
-            new_integer = op_1.operands[0] * op_2.operands[0]
+            new_integer = int(op_1.operands[0]) * int(op_2.operands[0])
+            if not _fits_in_command_array(new_integer):
+                if op_2 < op_1:
+                    return [op_2, op_1]
+                return operands
             simpl_const_prod = Expression(INTEGER, [new_integer])
             if simpl_const_prod.is_one():
                 return []
@@ -188,7 +213,11 @@ def _simplify_sum_rec(operands):
     if len(operands) == 2:
         op_1, op_2 = operands
         if op_1.operator == INTEGER and op_2.operator == INTEGER:
-            new_integer = op_1.operands[0] + op_2.operands[0]
+            new_integer = int(op_1.operands[0]) + int(op_2.operands[0])
+            if not _fits_in_command_array(new_integer):
+                if op_2 < op_1:
+                    return [op_2, op_1]
+                return operands
             simpl_const_sum = Expression(INTEGER, [new_integer])
             if simpl_const_sum.is_zero():
                 return []
